@@ -22,7 +22,8 @@ Definition evd : Type := (string * N)%type.
 Definition OTHER_TASK : N := 9.
 Definition kind_code (k : string) : N :=
   if String.eqb k "SyncRepo" then SYNC_REPO else if String.eqb k "SyncParent" then SYNC_PARENT
-  else if String.eqb k "RrdpUpdateIfNeeded" then RRDP_UPDATE else OTHER_TASK.
+  else if String.eqb k "RrdpUpdateIfNeeded" then RRDP_UPDATE
+  else if String.eqb k "ResourceClassRemoved" then 4 else if String.eqb k "UnexpectedKey" then 5 else OTHER_TASK.
 
 Definition lookup_table (tbl : list (string * list (string * string * string))) (ev : string) : list (string * string * string) :=
   match find (fun '(e, _) => String.eqb e ev) tbl with
@@ -31,8 +32,12 @@ Definition lookup_table (tbl : list (string * list (string * string * string))) 
   end.
 
 (** Pre-save (mq.rs schedule_for_ca_event): tasks of the CA itself. Post-save: a parent sync of the child. *)
+(** The second component of an event is the child it names - or, for an event whose tasks are scheduled "for
+    parent in ca.parents()" (RepoUpdated), the number of parents the CA has. *)
 Definition pre_tasks_of (me : N) (evs : list evd) : list task :=
-  flat_map (fun '(name, _) => map (fun '(_, k, _) => (kind_code k, me)) (lookup_table gen_ca_pre_save name)) evs.
+  flat_map (fun '(name, arg) =>
+    flat_map (fun '(_, k, g) => if String.eqb g "for parent in ca.parents()" then repeat (kind_code k, me) (N.to_nat arg) else [(kind_code k, me)])
+             (lookup_table gen_ca_pre_save name)) evs.
 Definition post_tasks_of (evs : list evd) : list task :=
   flat_map (fun '(name, child) => map (fun '(_, k, _) => (kind_code k, child)) (lookup_table gen_ca_post_save name)) evs.
 
@@ -104,7 +109,8 @@ Definition shape_eqb (a b : shape) : bool :=
   | ShObjects x, ShObjects y | ShCommand x, ShCommand y | ShSnapshot x, ShSnapshot y | ShStatus x, ShStatus y => x =? y
   | ShTaskDel x, ShTaskDel y | ShTaskPut x, ShTaskPut y | ShTaskClaim x, ShTaskClaim y
   | ShTaskFinish x, ShTaskFinish y | ShTaskResched x, ShTaskResched y => task_eqb x y
-  | ShKey, ShKey | ShSigner, ShSigner | ShWal, ShWal | ShWalSnapshot, ShWalSnapshot | ShWalDelete, ShWalDelete => true
+  | ShKey, ShKey | ShSigner, ShSigner | ShWal, ShWal | ShWalSnapshot, ShWalSnapshot | ShWalDelete, ShWalDelete
+  | ShPubdCommand, ShPubdCommand => true
   | ShFs o c, ShFs o' c' => (fsop_code o =? fsop_code o') && (fscls_code c =? fscls_code c')
   | ShOther s c, ShOther s' c' => (s =? s') && (c =? c')
   | _, _ => false
@@ -123,8 +129,11 @@ Inductive opkind :=
 | KSyncParent                                (* commands of parent and child, status writes between them *)
 | KRepublish                                 (* one published-object store per CA *)
 | KSyncRepo                                  (* status, change set, RRDP task, status *)
-| KRrdpUpdate (n_deltas : nat) (cleanup : list bool) (n_files : nat) (has_current has_old : bool)
-| KRsyncWrite (n_files : nat) (has_current has_old : bool)
+| KRrdpUpdate (n_deltas : nat) (cleanup : list bool) (n_files : nat) (has_current has_old has_tmp : bool)
+| KRsyncWrite (n_files : nat) (has_current has_old has_tmp : bool)
+| KRemovePublisher                           (* content change set, THEN access command, then the RRDP task *)
+| KCreatePublisher                           (* access command, then content change set *)
+| KGeneric                                   (* other multi-store operations: commands predicted, the rest as observed *)
 | KIdle                                      (* nothing: a task that finds it is premature *)
 | KTask (inner : opkind).                    (* claim, the task's work, finish / reschedule / follow-up *)
 
@@ -149,10 +158,17 @@ Fixpoint kind_ok (k : opkind) (steps : list cstep) : bool :=
           end
       | _ => false
       end
-  | KRrdpUpdate nd nr nf hc ho =>
-      match prims steps with Some l => shapes_eqb l (ShWal :: rrdp_fs_trace nd nr ++ rsync_fs_trace nf hc ho) | None => false end
-  | KRsyncWrite nf hc ho =>
-      match prims steps with Some l => shapes_eqb l (rsync_fs_trace nf hc ho) | None => false end
+  | KRrdpUpdate nd nr nf hc ho ht =>
+      match prims steps with Some l => shapes_eqb l (ShWal :: rrdp_fs_trace nd nr ++ rsync_fs_trace nf hc ho ht) | None => false end
+  | KRsyncWrite nf hc ho ht =>
+      match prims steps with Some l => shapes_eqb l (rsync_fs_trace nf hc ho ht) | None => false end
+  | KRemovePublisher =>
+      match prims steps with
+      | Some (ShWal :: ShPubdCommand :: rest) => forallb is_rrdp_task rest && negb (match rest with [] => true | _ => false end)
+      | _ => false
+      end
+  | KCreatePublisher => match prims steps with Some [ShPubdCommand; ShWal] => true | _ => false end
+  | KGeneric => true
   | KIdle => match steps with [] => true | _ => false end
   | KTask inner =>
       match steps with
@@ -190,8 +206,8 @@ Definition lookupN (k : N) (l : list (N * N)) : N :=
 Definition count_cmds (ca : N) (l : list shape) : N :=
   N.of_nat (length (filter (fun sh => match sh with ShCommand c => c =? ca | _ => false end) l)).
 Definition writes_objs (ca : N) (l : list shape) : bool :=
-  existsb (fun sh => match sh with ShObjects c => c =? ca | _ => false end) l.
-Definition ENTITIES : list N := [0; 1; 2; 3; 99].
+  existsb (fun sh => match sh with ShObjects c => c =? ca | ShOther 5 c => c =? ca (* removal of ca_objects/<ca>.json *) | _ => false end) l.
+Definition ENTITIES : list N := [0; 1; 2; 3; 4; 99].
 
 (** The drop-class self-healing path (ca/manager.rs:2069-2107): when the command that records a received
     certificate fails - here: a failing write between its listener write and its command store - the manager
@@ -226,6 +242,12 @@ Definition rejected_on_fail (c : case) (sps : list span) (ca : N) : bool :=
 
 Definition b2n (b : bool) : N := if b then 1 else 0.
 
+(** Composite operations (CA deletion, parent removal, ...) log and ignore the errors of their best-effort
+    parts: with one failing write the rest of the operation still runs, so what is present afterwards is not a
+    prefix; only the trace itself is compared for them in failed-write mode. *)
+Definition generic_fail (c : case) : bool :=
+  match k_mode c, k_kind c with Fail, KGeneric => true | _, _ => false end.
+
 Definition agrees (c : case) : bool :=
   match predict_full 0 (k_pend0 c) (k_run0 c) (k_steps c) with
   | None => false
@@ -234,14 +256,19 @@ Definition agrees (c : case) : bool :=
       let seen := if in_post_save c sps then tr else pre in
       shapes_eqb tr (k_trace c) && kind_ok (k_kind c) (k_steps c)
       && shapes_eqb pre (k_prefix c)
-      && forallb (fun ca => count_cmds ca seen + b2n (healed c sps ca) + b2n (rejected_on_fail c sps ca) =? lookupN ca (k_new_cmds c)) ENTITIES
-      && forallb (fun ca => writes_objs ca seen || healed c sps ca) (k_objs_changed c)
+      && (generic_fail c
+          || (forallb (fun ca => count_cmds ca seen + b2n (healed c sps ca) + b2n (rejected_on_fail c sps ca) =? lookupN ca (k_new_cmds c)) ENTITIES
+              && forallb (fun ca => writes_objs ca seen || healed c sps ca) (k_objs_changed c)))
   end.
 
 (** ** Oracles *)
 (** An acknowledged operation's commands are all in the logs. *)
 Definition ack_ok (c : case) : bool :=
-  negb (k_acked c) || forallb (fun ca => count_cmds ca (k_trace c) =? lookupN ca (k_new_cmds c)) ENTITIES.
+  match k_kind c with
+  | KCommand | KKeyrollInit =>
+      negb (k_acked c) || forallb (fun ca => count_cmds ca (k_trace c) =? lookupN ca (k_new_cmds c)) ENTITIES
+  | _ => true     (* composite operations have best-effort parts: their acknowledgement is judged by convergence and by the restart check *)
+  end.
 
 (** "Atomic alike": a published-object store that moved in an operation that stores a command of that CA
     has the command in the log (re-publication stores no command at all). *)
